@@ -77,6 +77,22 @@ pub fn replay(args: &[String]) {
                     Outcome::Ok(o) if o == want => {}
                     o => rep.mismatch("C17:ts-component", json!({"argv": a, "expected": want, "observed": {"kind": o.tag(), "text": o.text()}})),
                 }
+                // the commit time decides whenever it is known - also when the tag's time is LATER (history
+                // rewritten, clock skew) or earlier: both through stdin RON
+                if day % 8 == 4 {
+                    for other in [ts + 86_400 * 40, ts.saturating_sub(86_400 * 400), ts + 1, u32::MAX as u64 + 7] {
+                        let ron_in = format!(
+                            "(schema:(core:[var(ts(\"YYYY\")),var(ts(\"MM\")),var(ts(\"DD\"))],extra_core:[],build:[]),vars:(major:Some(1),minor:Some(2),patch:Some(3),bumped_timestamp:Some({ts}),last_timestamp:Some({other})))"
+                        );
+                        let a = argv(&["version", "--source", "stdin", "--output-format", "semver"]);
+                        let want = format!("{}.{}.{}", f[iy], f[im], f[id]);
+                        rep.evaluations += 1;
+                        match run_cli(&a, Some(&ron_in)) {
+                            Outcome::Ok(o) if o == want => {}
+                            o => rep.mismatch("C17:commit-time-decides", json!({"stdin": ron_in, "expected": want, "observed": {"kind": o.tag(), "text": o.text()}})),
+                        }
+                    }
+                }
                 // without a bumped timestamp the tag time (last_timestamp) is used: via stdin RON
                 if day % 8 == 0 {
                     let ron_in = format!(
